@@ -36,7 +36,9 @@ import pyairtouch.at5.comms.xC033_ac_timer_status as ts5
 _WORDS = ["Living", "Küche", "Büro", "寝室", "Zone", "Bed 1", "A", "", "naïve", "Ω", "Kids🙂",
           "Master Bedroom", "Up-stairs", "x" * 16, "é" * 8,
           # text whose bytes look like framing: runs of 0x55 (the frame prefix byte)
-          "UUU", "UUUU", "U" * 16, "aUUUb UUU", "UU"]
+          "UUU", "UUUU", "U" * 16, "aUUUb UUU", "UU",
+          # valid UTF-8 that is not in NFC: combining marks, the OHM and ANGSTROM signs
+          "Cafe\u0301", "A\u030angstr", "\u2126", "\u212b 7"]
 
 
 def fresh(s):
